@@ -394,7 +394,7 @@ func (vt *Model) el(ps int) {
 	// Erases from the beginning of the line to the cursor, including the
 	// cursor position. Line attribute is not affected.
 	case 1:
-		for col := column(0); col <= vt.cursor.col; col += 1 {
+		for col := column(0); col <= vt.cursor.col && col < column(vt.width()); col += 1 {
 			vt.activeScreen[r][col].erase(vt.cursor.Style.Background)
 		}
 
@@ -641,7 +641,7 @@ func (vt *Model) rep(ps int) {
 	}
 	ch := vt.activeScreen[vt.cursor.row][col-1]
 	for i := 0; i < ps; i += 1 {
-		if col+column(i) == vt.margin.right {
+		if col+column(i) >= vt.margin.right {
 			return
 		}
 		vt.activeScreen[vt.cursor.row][vt.cursor.col+column(i)].Character = ch.Character
